@@ -304,7 +304,7 @@ ADDENDA = {
            "array_chunks N in {1,2,3,4,5,8,16}, and zero-sized slices of isize::MAX+1 / usize::MAX elements three steps deep "
            "(lengths compared, projection guarded by std).",
     "C10": "The flatten adapter (map-to-range then flatten) is part of the grammar.",
-    "C11": "collect_const! over every depth-2 adapter chain of IterDsl.tla.",
+    "C11": "collect_const! over every depth-2 and depth-3 adapter chain of IterDsl.tla.",
     "C13": "A second alphabet family (byte-sharing 3-byte characters, U+FFFF, U+07FF) and the parser_method! forms as "
            "Parser actions; beyond the listed property the error kind and Display / panic text of every failing operation "
            "are compared as extras (never a violation).",
@@ -313,11 +313,13 @@ ADDENDA = {
            "tuple structs are destructured inside const fn (unaligned field reads judged by the const evaluator).",
     "C16": "Kind `record`: a user aggregate compared through impl_cmp! / try_equal! / coerce_to_cmp!; recorded slices of "
            "9..80 elements.",
-    "C17": "14 parser_method! pattern kinds (4 literal-valued, 10 non-literal incl. range patterns that start with a "
-           "literal), &mut references and the generic type form of destructure!.",
+    "C17": "23 parser_method! pattern kinds (9 literal-valued, 14 non-literal incl. range patterns that start with a "
+           "literal and fragments forwarded by a user macro_rules!), &mut references and the generic type form of "
+           "destructure!.",
     "C18": "The macro forms are additionally applied to every state of a Parser.tla graph and compared on remainder, "
            "offsets and direction.",
-    "C19": "min!/max!/_by/_by_key on every primitive type with four anchor values per type.",
+    "C19": "min!/max!/_by/_by_key on every primitive type with four anchor values per type; every option / result macro "
+           "on a payload with a counting destructor (same number of destructor runs as std).",
     "C20": "Pieces and separators of 7..17 bytes with a multi-byte character at the start / end / straddling byte 8.",
 }
 for _pid, _extra in ADDENDA.items():
